@@ -51,6 +51,10 @@ func runC04(c *wk.Ctx) {
 		c.Begin(0, "cross-namespace default loops")
 		c04CrossNamespace(c, "C04")
 	}
+	if c.Mine(2) {
+		c.Begin(2, "chains of objects with two defaulted references each")
+		c04DefaultChains(c, "C04")
+	}
 	if c.Mine(1) {
 		c.Begin(1, "deep valid values of recursive struct-mapped schemas")
 		c04StructTrees(c)
@@ -333,3 +337,59 @@ func c04StructTrees(c *wk.Ctx) {
 		}
 	}
 }
+
+// c04DefaultChains: a valid, acyclic chain of objects in which every object refers to the next one through two
+// properties that both default to "{}". Building the scope, describing it and loading the description all have to
+// return (the CPU-time rule decides); no input that would make the defaults unfold is used - the unfolded value
+// really has 2^n nodes.
+func c04DefaultChains(c *wk.Ctx, propID string) {
+	def := "{}"
+	for _, n := range []int{4, 12, 40, 200} {
+		build := func() *schema.ScopeSchema {
+			var objs []*schema.ObjectSchema
+			for i := 0; i <= n; i++ {
+				props := map[string]*schema.PropertySchema{}
+				if i < n {
+					next := fmt.Sprintf("O%d", i+1)
+					props["a"] = schema.NewPropertySchema(schema.NewRefSchema(next, nil), nil, false, nil, nil, nil, &def, nil)
+					props["b"] = schema.NewPropertySchema(schema.NewListSchema(schema.NewRefSchema(next, nil), nil, nil), nil, false, nil, nil, nil, &def2, nil)
+				} else {
+					props["v"] = schema.NewPropertySchema(schema.NewIntSchema(nil, nil, nil), nil, false, nil, nil, nil, nil, nil)
+				}
+				objs = append(objs, schema.NewObjectSchema(fmt.Sprintf("O%d", i), props))
+			}
+			return schema.NewScopeSchema(objs[0], objs[1:]...)
+		}
+		var s *schema.ScopeSchema
+		var desc any
+		var err error
+		w := map[string]any{"objects_in_the_chain": n + 1}
+		c.Note(fmt.Sprintf("building a chain of %d objects with two defaulted references each", n+1))
+		if p, site, msg, _ := wk.Guard(func() { s = build() }); p {
+			c.Violation(propID+":panic:NewScopeSchema:"+site, "building a valid acyclic chain of defaulted references panicked: "+msg, w)
+			continue
+		}
+		c.Note(fmt.Sprintf("describing a chain of %d objects with two defaulted references each", n+1))
+		if p, site, msg, _ := wk.Guard(func() { desc, err = s.SelfSerialize() }); p || err != nil {
+			c.Violation(propID+":chain-not-described:"+site, fmt.Sprintf("SelfSerialize of the chain failed: %v %s", err, msg), w)
+			continue
+		}
+		c.Note(fmt.Sprintf("loading the description of a chain of %d objects with two defaulted references each", n+1))
+		var rebuilt *schema.ScopeSchema
+		if p, site, msg, _ := wk.Guard(func() { rebuilt, err = schema.UnserializeScope(desc) }); p || err != nil {
+			c.Violation(propID+":chain-not-loaded:"+site, fmt.Sprintf("UnserializeScope of the chain's own description failed: %v %s", err, msg), w)
+			continue
+		}
+		for _, t := range []*schema.ScopeSchema{s, rebuilt} {
+			for _, in := range []any{5, "x", nil, []any{}} {
+				c.Note(fmt.Sprintf("Unserialize of a non-map value on a chain of %d objects", n+1))
+				_, _, _, _ = wk.Guard(func() { _, _ = t.Unserialize(in) })
+				c.Count("calls")
+			}
+		}
+		c.Count("default_chains")
+		c.Eval(wk.Hash64("default-chain", fmt.Sprint(n)), true)
+	}
+}
+
+var def2 = "[{}, {}]"
